@@ -5,4 +5,14 @@ TEXT = {
   "note": "Trusted: Coq kernel+VM; tools/gotrans and Go's parser; Go int as unbounded Z with '/' = Z.quot (no overflow below 2^62); harness/driver. No axioms (Print Assumptions checked per run).",
   "technique": "Coq proof over translator-generated model (lia + list pigeonhole) + exhaustive differential table",
  },
+ "C13": {
+  "text": "Eleven Coq theorems over an executable model of go-mysql's interval slices / GTID sets and mysync's gtids package prove, for ALL well-formed sets (any number of uuids, tags, gaps) and all non-empty position lists: behind-or-equal <-> subset, ahead = negation, interval and set subtraction exact (and normal-form preserving), the four GTIDDiff messages <-> the four emptiness combinations with the reported sets equal to the two differences, subset => never split-brained, foreign extra transaction => split-brained, most-recent returns a member containing all others and reports split brain iff no such member exists. K1 correspondence runs the real parser and functions on all pairs over a small universe plus random large sets and checks them against the model inside Coq; an independent bitset monitor evaluates the property on the implementation.",
+  "note": "Trusted: Coq kernel+VM; model of sort.Search (first match) and Normalize (insertion) by input/output; uuids/tags numbered by the harness; string rendering/parsing exercised not modelled; harness/driver. No axioms.",
+  "technique": "Coq proof over hand-written executable model + differential (K1) correspondence with exhaustive small universe",
+ },
+ "C14": {
+  "text": "Eight Coq theorems about the executable model of getMostPriorityNode/getMostDesirableNode/filterOutNodeFromPositions prove for ALL candidate lists and bounds >= 0: termination (fuel length+1 never exhausted), result is an offered candidate, error iff no candidate, never the from-host, top-priority-within-bound wins, otherwise top or fresher-by-more-than-bound, the top has maximal priority and no equal-priority candidate holds strictly more transactions, and coincidence with the most recent node under equal priorities and lags within the bound. K1 correspondence on random lists of 0-5 nodes (with a child-process termination probe); the less-lag tie-break among equal sets is covered by correspondence + monitor only.",
+  "note": "Trusted: as C13; integer-valued lags (exact in float64); Go recursion modelled with fuel. No axioms.",
+  "technique": "Coq proof (scan invariants, fuel termination) + differential (K1) correspondence",
+ },
 }
